@@ -519,7 +519,8 @@ class EventBus:
                 event.event_parent_id = current_event.event_id
 
         # Add this EventBus to the event_path if not already there
-        if self.name not in event.event_path:
+        added_to_path = self.name not in event.event_path
+        if added_to_path:
             # preserve identity of the original object instead of creating a new one, so that the original object remains awaitable to get the result
             # NOT: event = event.model_copy(update={'event_path': event.event_path + [self.name]})
             event.event_path.append(self.name)
@@ -541,6 +542,9 @@ class EventBus:
             total_pending = queue_size + pending_in_history
 
             if total_pending >= 100:
+                # a rejected dispatch must leave no trace: this bus is not going to process the event
+                if added_to_path:
+                    event.event_path.remove(self.name)
                 raise RuntimeError(
                     f'EventBus at capacity: {total_pending} pending events (100 max). '
                     f'Queue: {queue_size}, Processing: {pending_in_history}. '
@@ -571,7 +575,9 @@ class EventBus:
                     f'🗣️ {self}.dispatch({event.event_type}) ➡️ {event.event_type}#{event.event_id[-4:]} (#{self.event_queue.qsize()} {event.event_status})'
                 )
             except asyncio.QueueFull:
-                # Don't add to history if we can't queue it
+                # Don't add to history if we can't queue it, and take this bus off the path again if this call added it
+                if added_to_path:
+                    event.event_path.remove(self.name)
                 logger.error(
                     f'⚠️ {self} Event queue is full! Dropping event and aborting {event.event_type}:\n{event.model_dump_json()}'  # pyright: ignore[reportUnknownMemberType]
                 )
